@@ -1036,6 +1036,8 @@ def parse_file(raw):
     pos = 4
     while pos < len(raw):
         tid, tl, status, ul, dl, el = struct.unpack('>8sQcHHH', raw[pos:pos + 23])
+        if status == b'c':
+            break                # a voted, unfinished tail: not a transaction of the history
         p = pos + 23
         user, desc, ext = raw[p:p + ul], raw[p + ul:p + ul + dl], raw[p + ul + dl:p + ul + dl + el]
         p += ul + dl + el
@@ -1224,48 +1226,111 @@ def limited_open(name, mode='r', *a, **k):
     return open(name, mode, *a, **k)
 
 
-def recover_worker(conn, workdir, jobs, trace_after=None):
-    """child process: run fsrecover.recover on each damaged image; send one result per job.
-    trace_after: seconds after which the Python stack of a still running job is written to
-    <workdir>.trace (used by the confirming re-run of a timed-out job to say WHERE it hangs)"""
-    import faulthandler
+def recover_one(workdir, payload):
+    """one run of fsrecover.recover on an image; payload = image bytes or (image, options).
+    options: force / noforce (an output file exists already), pack (pack time before the first
+    transaction), partial (-p), verbose, again (recover the output again and copy it)"""
     import ZODB.FileStorage
+    from ZODB import fsrecover
+    img, opts = payload if isinstance(payload, tuple) else (payload, {})
+    inp = os.path.join(workdir, 'in.fs')
+    outp = os.path.join(workdir, 'out.fs')
+    for f in os.listdir(workdir):
+        pth = os.path.join(workdir, f)
+        shutil.rmtree(pth) if os.path.isdir(pth) else os.remove(pth)
+    with open(inp, 'wb') as f:
+        f.write(img)
+    before = None
+    if opts.get('force') or opts.get('noforce'):
+        # an output file (a valid storage with one transaction) is already there
+        fs = ZODB.FileStorage.FileStorage(outp)
+        run_steps(fs, [dict(t=BASE - GAP, u='', d='6f6c64', e=None, ops=[['s', 77, mkdata(77, 1, None).hex()]])],
+                  {}, {}, workdir, Built())
+        fs.close()
+        with open(outp, 'rb') as f:
+            before = f.read()
+    obs = dict(status='done')
+    buf = io.StringIO()
+    kw = {}
+    if opts.get('force'):
+        kw['force'] = True
+    if opts.get('partial'):
+        kw['partial'] = True
+    if opts.get('verbose'):
+        kw['verbose'] = opts['verbose']
+    if opts.get('pack') is not None:
+        kw['pack'] = opts['pack']
+    try:
+        with contextlib.redirect_stdout(buf), contextlib.redirect_stderr(buf):
+            fsrecover.recover(inp, outp, **kw)
+    except SystemExit:
+        txt = buf.getvalue()
+        if opts.get('noforce') and 'exists' in txt:
+            with open(outp, 'rb') as f:
+                return dict(status='refused', untouched=f.read() == before)
+        obs = dict(status='notfs' if 'not a file storage' in txt else 'crash:SystemExit', detail=txt[-200:])
+    except Exception as e:
+        obs = dict(status='crash:' + type(e).__name__, detail='%s: %s' % (type(e).__name__, str(e)[:200]))
+    if obs['status'] == 'done':
+        try:
+            fs = ZODB.FileStorage.FileStorage(outp, read_only=True)
+            obs['dump'] = iter_dump(fs.iterator(), unpickle_ext=False)
+            fs.close()
+            with open(outp, 'rb') as f:
+                o = f.read()
+            obs['img'] = (len(o), '%016x' % fnv64(o))
+            obs['errors'] = buf.getvalue().count('error ')
+        except Exception as e:
+            obs = dict(status='crash:output-unreadable:' + type(e).__name__, detail=str(e)[:200])
+    if obs['status'] == 'done' and opts.get('again'):
+        # the output is a data file like any other: recovering it again, and copying it, must
+        # reproduce it (idempotence)
+        try:
+            out2 = os.path.join(workdir, 'out2.fs')
+            with contextlib.redirect_stdout(buf), contextlib.redirect_stderr(buf):
+                fsrecover.recover(outp, out2)
+            fs = ZODB.FileStorage.FileStorage(out2, read_only=True)
+            obs['dump2'] = iter_dump(fs.iterator(), unpickle_ext=False)
+            fs.close()
+            with open(out2, 'rb') as f:
+                o2 = f.read()
+            obs['img2'] = (len(o2), '%016x' % fnv64(o2))
+            src = ZODB.FileStorage.FileStorage(outp, read_only=True)
+            dst = ZODB.FileStorage.FileStorage(os.path.join(workdir, 'out3.fs'))
+            dst.copyTransactionsFrom(src)
+            obs['dump3'] = iter_dump(dst.iterator(), unpickle_ext=False)
+            dst.close()
+            src.close()
+        except (Exception, SystemExit) as e:
+            obs['again_error'] = '%s: %s' % (type(e).__name__, str(e)[:200])
+    return obs
+
+
+def copy_one(workdir, case):
+    return run_copy_case(case, workdir)
+
+
+def child_worker(conn, workdir, jobs, trace_after=None, mode='recover'):
+    """child process: run every job (fsrecover on a damaged image / one copy case) and send one
+    result per job.  trace_after: seconds after which the Python stack of a still running job is
+    written to <workdir>.trace (used by the confirming re-run of a timed-out job to say WHERE it
+    hangs)"""
+    import faulthandler
     from ZODB import fsrecover
     fsrecover.open = limited_open          # module-level rebinding in this child process only
     logging.disable(logging.CRITICAL)
     os.makedirs(workdir, exist_ok=True)
     tracef = open(workdir + '.trace', 'w') if trace_after else None
-    for (jid, img) in jobs:
+    fn = recover_one if mode == 'recover' else copy_one
+    for (jid, payload) in jobs:
         conn.send(('start', jid))
         if tracef:
             faulthandler.dump_traceback_later(trace_after, file=tracef)
-        inp = os.path.join(workdir, 'in.fs')
-        outp = os.path.join(workdir, 'out.fs')
-        for f in os.listdir(workdir):
-            os.remove(os.path.join(workdir, f))
-        with open(inp, 'wb') as f:
-            f.write(img)
-        obs = dict(status='done')
-        buf = io.StringIO()
         try:
-            with contextlib.redirect_stdout(buf), contextlib.redirect_stderr(buf):
-                fsrecover.recover(inp, outp)
-        except SystemExit:
-            obs = dict(status='notfs' if 'not a file storage' in buf.getvalue() else 'crash:SystemExit',
-                       detail=buf.getvalue()[-200:])
-        except Exception as e:
-            obs = dict(status='crash:' + type(e).__name__, detail='%s: %s' % (type(e).__name__, str(e)[:200]))
-        if obs['status'] == 'done':
-            try:
-                fs = ZODB.FileStorage.FileStorage(outp, read_only=True)
-                obs['dump'] = iter_dump(fs.iterator(), unpickle_ext=False)
-                fs.close()
-                with open(outp, 'rb') as f:
-                    o = f.read()
-                obs['img'] = (len(o), '%016x' % fnv64(o))
-                obs['errors'] = buf.getvalue().count('error ')
-            except Exception as e:
-                obs = dict(status='crash:output-unreadable:' + type(e).__name__, detail=str(e)[:200])
+            obs = fn(workdir, payload)
+        except Exception as e:          # the harness's own code failed inside the child
+            obs = dict(status='crash:harness:' + type(e).__name__, detail=str(e)[:200],
+                       error='harness: %s: %s' % (type(e).__name__, str(e)[:200]), phase='harness')
         if tracef:
             faulthandler.cancel_dump_traceback_later()
         conn.send(('done', jid, obs))
@@ -1282,7 +1347,8 @@ def read_trace(path):
         return []
 
 
-def run_recover_jobs(jobs, tmp, nproc, watchdog=6.0, max_timeouts=3, confirm=True, trace_after=None):
+def run_recover_jobs(jobs, tmp, nproc, watchdog=6.0, max_timeouts=3, confirm=True, trace_after=None,
+                     mode='recover'):
     """jobs: list of (jid, image bytes). returns {jid: obs}; a job that makes no progress for
     `watchdog` seconds (a normal run takes milliseconds) is reported as status 'timeout' (its worker
     is killed and restarted).  After `max_timeouts` of them the remaining jobs are abandoned
@@ -1295,8 +1361,8 @@ def run_recover_jobs(jobs, tmp, nproc, watchdog=6.0, max_timeouts=3, confirm=Tru
 
     def start(wi, todo):
         parent, child = ctx.Pipe(duplex=False)
-        p = ctx.Process(target=recover_worker,
-                        args=(child, os.path.join(tmp, 'rw%d' % wi), todo, trace_after))
+        p = ctx.Process(target=child_worker,
+                        args=(child, os.path.join(tmp, 'rw%d' % wi), todo, trace_after, mode))
         p.daemon = True
         p.start()
         child.close()
@@ -1351,8 +1417,8 @@ def run_recover_jobs(jobs, tmp, nproc, watchdog=6.0, max_timeouts=3, confirm=Tru
         # again fails to end (a loaded machine must not produce a false alarm)
         byid = dict(jobs)
         for jid in [j for j, o in results.items() if o.get('status') == 'timeout']:
-            again = run_recover_jobs([(jid, byid[jid])], tmp, 1, watchdog=20.0, max_timeouts=1, confirm=False,
-                                     trace_after=10.0)
+            again = run_recover_jobs([(jid, byid[jid])], tmp, 1, watchdog=max(20.0, 2 * watchdog), max_timeouts=1,
+                                     confirm=False, trace_after=max(10.0, watchdog), mode=mode)
             results[jid] = again[jid]
     for (jid, _) in jobs:
         results.setdefault(jid, dict(status='skipped'))
@@ -1374,9 +1440,14 @@ def file_bytes(prog, tmp):
     shutil.rmtree(d, ignore_errors=True)
     os.makedirs(d)
     b = build(prog, d)
-    b.storage.close()
-    with open(b.path, 'rb') as f:
-        raw = f.read()
+    if prog.get('tail'):
+        with open(b.path, 'rb') as f:      # (tpc_vote flushed it) the voted tail is part of the image
+            raw = f.read()
+        b.close()
+    else:
+        b.storage.close()
+        with open(b.path, 'rb') as f:
+            raw = f.read()
     shutil.rmtree(d, ignore_errors=True)
     return raw, b.undos
 
